@@ -212,6 +212,12 @@ def run_classify(sh, ctx):
 		ctx.count(f'matched_taxa:{min(nm, 3)}{"+" if nm >= 3 else ""}')
 		if exp['has_error']:
 			ctx.count('worlds_without_common_ancestor')
+		if wi % 4 == 1 and len(gt) > 1:
+			try:
+				gc.classify(genomes, dists[:-1], strict=True)   # length mismatch: must not leave anything behind for the calls below
+				ctx.count('mismatched_call_returned')
+			except Exception:
+				ctx.count('failing_calls_interleaved')
 		preds = set()
 		for perm in itertools.permutations(range(len(gt))):
 			pi = check_classify_strict(ctx, gc, model, otaxa, gt, dists, genomes, perm, dict(w, order=list(perm)))
